@@ -117,7 +117,7 @@ func salted(h func([]byte) uint64, key string, i int) uint64 {
 	return h(append(b, idx[:]...))
 }
 
-func refOwner(c cfg, members []string, key string) string {
+func refEntries(c cfg, members []string) []refEntry {
 	var es []refEntry
 	for _, m := range members {
 		for i := 0; i < c.replicas; i++ {
@@ -130,6 +130,10 @@ func refOwner(c cfg, members []string, key string) string {
 		}
 		return es[i].k < es[j].k
 	})
+	return es
+}
+
+func refOwner(c cfg, es []refEntry, key string) string {
 	best := ^uint64(0)
 	owner := es[0].k
 	for p := 0; p < c.probes; p++ {
@@ -170,7 +174,7 @@ func run(c *harness.Case) {
 	universe = universe[:4+R.Intn(len(universe)-3)]
 	// big clusters: the production replica count with 20..60 nodes (tables of several thousand virtual
 	// nodes, where size-dependent code paths such as incremental sorting would kick in)
-	big := c.Index%8 == 0 || c.Index%8 == 4 || (c.Thorough() && R.Intn(4) == 0)
+	big := c.Index%8 == 0 || (c.Thorough() && R.Intn(4) == 0)
 	if big {
 		universe = append([]string(nil), names...)
 		for i, n := 0, 10+R.Intn(50); i < n; i++ {
@@ -325,6 +329,10 @@ func run(c *harness.Case) {
 			fresh = []*hashring.Ring[val]{f1, f2, f3}
 		}
 
+		var refEs []refEntry
+		if len(mem) > 0 {
+			refEs = refEntries(cf, mem)
+		}
 		nl := 1 + R.Intn(8)
 		for _, key := range lookupKeys(nl) {
 			got, ok := ring.Lookup(key)
@@ -363,7 +371,7 @@ func run(c *harness.Case) {
 					return
 				}
 			}
-			if refOwner(cf, mem, key) == got.Name {
+			if refOwner(cf, refEs, key) == got.Name {
 				c.Count("model_agree", 1)
 			} else {
 				c.Count("model_disagree", 1)
